@@ -715,10 +715,10 @@ pub fn check_state(p: &Props, ops: &[Op], info: &PlanInfo, obs: &Obs, last_only:
                     }
                     continue;
                 }
-                let exp = expected_runs(info, n.id, 6, 5);
+                let exp = expected_runs(info, n.id, 7, 6);
                 if runs[n.id] != exp {
                     let sig = if runs[n.id] < exp { "system-skipped" } else { "system-ran-too-often" };
-                    out.push(v("C04", sig, format!("system {} ran {} times after [dispatch_seq, dispatch_par, dispatch, dispatch_thread_local, RunNow::run_now, dispatch on a second world, dispatch on the first world], expected {}: {}", n.id, runs[n.id], exp, l.short())));
+                    out.push(v("C04", sig, format!("system {} ran {} times after [dispatch_seq, dispatch_par, dispatch, dispatch_thread_local, RunNow::run_now, dispatch on a second world, dispatch on the first world, dispatch from a destructor while unwinding], expected {}: {}", n.id, runs[n.id], exp, l.short())));
                 }
             }
         }
@@ -727,9 +727,9 @@ pub fn check_state(p: &Props, ops: &[Op], info: &PlanInfo, obs: &Obs, last_only:
     if p.c07 {
         if let (Some(runs), None) = (&obs.runs, &obs.dispatch_panic) {
             for n in info.nodes.iter().filter(|n| n.parent.is_some() && !info.rejected.contains(&n.id)) {
-                let exp = expected_runs(info, n.id, 6, 5);
+                let exp = expected_runs(info, n.id, 7, 6);
                 if runs[n.id] != exp {
-                    out.push(v("C07", "inner-system-not-once-per-inner-dispatch", format!("system {} (inside a batch, depth {}{}) ran {} times after [dispatch_seq, dispatch_par, dispatch, dispatch_thread_local, RunNow::run_now, dispatch on a second world, dispatch on the first world], expected {}: {}", n.id, n.depth, if n.kind == Kind::Tl { ", thread-local" } else { "" }, runs[n.id], exp, l.short())));
+                    out.push(v("C07", "inner-system-not-once-per-inner-dispatch", format!("system {} (inside a batch, depth {}{}) ran {} times after [dispatch_seq, dispatch_par, dispatch, dispatch_thread_local, RunNow::run_now, dispatch on a second world, dispatch on the first world, dispatch from a destructor while unwinding], expected {}: {}", n.id, n.depth, if n.kind == Kind::Tl { ", thread-local" } else { "" }, runs[n.id], exp, l.short())));
                 }
             }
         }
